@@ -106,13 +106,18 @@ def diagnose(prev, e):
         return "applied-tx:%s:nonce-step-%d" % (to, dn)
     tot = sum(e["bal"].values()) + e["burnt"] - sum(prev["bal"].values()) - prev["burnt"]
     if tot != 0:
-        return "applied-tx:%s:ong-not-conserved" % to
+        return "applied-tx:%s:ong-moved-to-or-from-an-untracked-account" % to
+    db = e["burnt"] - prev["burnt"]        # burnt = initial sum of ALL ONG balance entries - current sum
+    if db < 0:
+        return "applied-tx:%s:ong-created-from-nothing" % to
+    if db > 0 and not (to == "SDS" and e["ok"]):
+        return "applied-tx:%s:ong-lost" % to
     if prev["bal"][s] - e["bal"][s] > e["gl"] * e["gp"] + e["v"]:
         return "applied-tx:%s:charged-more-than-gaslimit*price+value" % to
     if to != "FEE" and e["bal"]["FEE"] - prev["bal"]["FEE"] != e["used"] * e["gp"]:
         return "applied-tx:%s:fee-differs-from-gas-used*price" % to
-    if e["burnt"] != prev["burnt"]:
-        return "applied-tx:%s:ong-burnt" % to
+    if db > 0:
+        return "applied-tx:%s:burnt-amount-differs-from-contract-balance" % to
     return "applied-tx:%s:unexplained" % to
 
 
